@@ -196,7 +196,7 @@ Section Dels.
   Proof.
     induction l as [|[k0 v0] l IH]; intros a b; simpl; [reflexivity|].
     destruct (beqb b k0) eqn:Eb; destruct (beqb a k0) eqn:Ea; simpl;
-      rewrite ?Eb, ?Ea; rewrite ?IH; reflexivity.
+      rewrite ?Eb, ?Ea; rewrite (IH a b); reflexivity.
   Qed.
 
   Lemma adelete_adeletes : forall ks l k, adelete k (adeletes ks l) = adeletes ks (adelete k l).
@@ -440,7 +440,7 @@ Proof.
     apply IH in MC; [|now apply (all_nodes_child _ n)|now apply (all_nodes_child _ n)].
     destruct MC as [ks [Hk W]]. destruct (seg_match_shape _ _ _ _ _ SM) as [v [-> Hu]].
     exists ks. split; [now apply (names_below_child n ch)|].
-    apply (walk_down n ch path _ path1 _ r ps' Ich); [|exact W].
+    refine (walk_down _ _ _ _ _ _ _ _ Ich _ W).
     apply seg_match_adeletes; [exact Hu|]. intros Hs Ik.
     destruct (Hk _ Ik) as [d [Hd Hn]].
     exact (all_nodes_here _ _ (all_nodes_child _ _ _ Hfr Ich) Hs d Hd Hn). }
@@ -551,8 +551,7 @@ Fixpoint heights (l : list node) : nat :=
 
 Lemma height_eq : forall n, height n = S (heights (nchildren n)).
 Proof.
-  intros [s p i h x c]. simpl. f_equal. induction c as [|y c IHc]; simpl; [reflexivity|].
-  now rewrite IHc.
+  intros [s p i h x c]. reflexivity.
 Qed.
 
 Lemma height_child : forall n ch, In ch (nchildren n) -> (height ch < height n)%nat.
@@ -637,4 +636,168 @@ Proof.
   destruct (build_indexes (ssort keyed)) as [ix|e|s|] eqn:B; simpl in H; try discriminate.
   injection H as <-. apply build_indexes_ok in B. destruct n as [s p i h x c].
   unfold idx_ok. simpl. intros b Hne. destruct B as [->|B]; [congruence | apply B].
+Qed.
+
+(* ================================================================ examples *)
+
+Definition named_seg (val name suffix : bytes) (ep : bool) : segment :=
+  {| sval := val; sname := name; srule := []; ssuffix := suffix; styp := TNamed; samb := O;
+     sendpoint := ep; signore := false; sre := REmpty; smatch := fun _ => true |}.
+
+(* root -> "/posts/" -> "{id}" (with a GET handler) *)
+Definition ex_id : node :=
+  Node (named_seg (bs "{id}") (bs "id") [] true) (bs "/posts/{id}") 0 [(GET, HUser (bs "h"))] [] [].
+Definition ex_posts : node := Node (string_seg (bs "/posts/")) (bs "/posts/") 0 [] [] [ex_id].
+Definition ex_root : node := Node (string_seg []) [] 0 [] [] [ex_posts].
+
+Example ex_found : match_children 3 ex_root (bs "/posts/5") [] = MFound ex_id [(bs "id", bs "5")].
+Proof. vm_compute. reflexivity. Qed.
+
+Example ex_none : match_children 3 ex_root (bs "/postz/5") [(bs "q", bs "1")] = MNone [(bs "q", bs "1")].
+Proof. vm_compute. reflexivity. Qed.
+
+Ltac ex_all_nodes tac :=
+  constructor; [tac | intros ?ch [<-|[]]; constructor; [tac | intros ?ch [<-|[]]; constructor; [tac | intros ?ch []]]].
+
+Example ex_idx_ok : all_nodes idx_ok ex_root.
+Proof. ex_all_nodes ltac:(intros b Hne; exfalso; now apply Hne). Qed.
+Example ex_idx_lit : all_nodes idx_lit ex_root.
+Proof. ex_all_nodes ltac:(intros b c Hne; exfalso; now apply Hne). Qed.
+Example ex_names_fresh : all_nodes names_fresh_at ex_root.
+Proof.
+  constructor; [intro Hs; discriminate|]. intros ch [<-|[]].
+  constructor; [intro Hs; discriminate|]. intros ch [<-|[]].
+  constructor; [|intros ch []].
+  intros _ d Hd. inversion Hd as [n0 c0 I|n0 c0 d0 I _]; destruct I.
+Qed.
+Example ex_height : (height ex_root <= 3)%nat.
+Proof. vm_compute. lia. Qed.
+Example ex_seg_wf : seg_wf (nseg ex_id) /\ seg_match (nseg ex_id) (bs "5") [] = Some ([], [(bs "id", bs "5")]).
+Proof. split; [intros _; reflexivity | vm_compute; reflexivity]. Qed.
+
+(* the theorems applied to the example *)
+Example ex_walk : exists ps0, sub_params ps0 [] /\ walk ex_root (bs "/posts/5") ps0 ex_id [(bs "id", bs "5")].
+Proof. exact (match_children_sound_partial _ _ _ _ _ _ ex_idx_lit ex_names_fresh ex_found). Qed.
+Example ex_no_panic : forall path ps s, match_children 3 ex_root path ps <> MPanic s.
+Proof. intros path ps s. exact (match_children_no_panic 3 ex_root path ps ex_idx_ok ex_height s). Qed.
+
+(* five literal children: the first-byte index is built and used *)
+Definition ex_lit (c : String.string) : node := Node (string_seg (bs c)) (bs c) 0 [(GET, HUser (bs c))] [] [].
+Definition ex_five : res node :=
+  sort_node (Node (string_seg []) [] 0 [] [] [])
+            (with_prio [ex_lit "a"; ex_lit "b"; ex_lit "c"; ex_lit "d"; ex_lit "e"]).
+Example ex_five_indexed :
+  match ex_five with
+  | Ok n => length (nindexes n) = 5%nat /\ match_children 2 n (bs "c") [] = MFound (ex_lit "c") [] /\
+            match_children 2 n (bs "z") [] = MNone []
+  | _ => False
+  end.
+Proof. vm_compute. repeat split. Qed.
+Example ex_five_idx_ok : forall n, ex_five = Ok n -> idx_ok n.
+Proof. intros n H. exact (sort_node_idx_ok _ _ _ H). Qed.
+
+(* shortest capture: "{v}ab" on "xabab" takes "x", not "xab" *)
+Example ex_shortest : find_split (fun _ => true) (bs "ab") [] (bs "xabab") = Some (bs "x", bs "ab").
+Proof. vm_compute. reflexivity. Qed.
+
+(* ================================================================ counterexamples *)
+
+(* (1) seg_match_sound needs [seg_wf]: split "/a/{id}x}" produces an end-point segment with
+   the suffix "x}" (Endpoint looks at the last byte, Suffix at the first closing brace) and an
+   end point takes the whole remaining path as the value. *)
+Example cx_split_not_wf :
+  match split [] (bs "/a/{id}x}") with
+  | Ok [_; s] => sendpoint s = true /\ ssuffix s = bs "x}" /\
+                 seg_match s (bs "5") [] = Some ([], [(bs "id", bs "5")])
+  | _ => False
+  end.
+Proof. vm_compute. repeat split. Qed.
+
+Lemma seg_match_sound_needs_wf :
+  ~ (forall seg path ps rest ps', seg_match seg path ps = Some (rest, ps') ->
+      match styp seg with
+      | TString => path = sval seg ++ rest /\ ps' = ps
+      | _ => exists v, path = v ++ ssuffix seg ++ rest /\ smatch seg v = true /\
+                       ps' = (if signore seg then ps else ctx_set ps (sname seg) v) /\
+                       ((sendpoint seg = true \/ (styp seg = TRegexp /\ ssuffix seg = [])) -> rest = [])
+      end).
+Proof.
+  intro H.
+  specialize (H (named_seg [123; 105; 100; 125; 120; 125] [105; 100] [120; 125] true) [53] [] []
+                [([105; 100], [53])] eq_refl).
+  simpl in H. destruct H as [v [Hp _]]. apply (f_equal (@length N)) in Hp.
+  rewrite app_length in Hp. simpl in Hp. lia.
+Qed.
+
+Lemma walk_cons_inv : forall n b path ps r ps', walk n (b :: path) ps r ps' ->
+  exists ch path1 ps1, In ch (nchildren n) /\
+    seg_match (nseg ch) (b :: path) ps = Some (path1, ps1) /\ walk ch path1 ps1 r ps'.
+Proof.
+  intros n b path ps r ps' W.
+  inversion W as [|n0 ch path0 ps0 path1 ps1 r0 ps0' Ich SM W']; subst.
+  exists ch, path1, ps1. now split.
+Qed.
+Lemma walk_nil_inv : forall n ps r ps', walk n [] ps r ps' ->
+  (r = n /\ ps' = ps /\ (0 < nsize n)%nat) \/
+  exists ch path1 ps1, In ch (nchildren n) /\
+    seg_match (nseg ch) [] ps = Some (path1, ps1) /\ walk ch path1 ps1 r ps'.
+Proof.
+  intros n ps r ps' W.
+  inversion W as [n0 ps0 Hs|n0 ch path0 ps0 path1 ps1 r0 ps0' Ich SM W']; subst.
+  - left. now split.
+  - right. exists ch, path1, ps1. now split.
+Qed.
+
+(* (2) a parameter name used again further down (H2 violated): the abandoned grandchild's
+   delete also removes the child's own "id" *)
+Definition cxA_g1 : node :=
+  Node (named_seg [123;105;100;125;47] [105;100] [47] false) [] 0 [] []
+       [Node (string_seg [122;122;122]) [] 0 [(GET, HUser [])] [] []].
+Definition cxA_g2 : node := Node (named_seg [123;107;125] [107] [] true) [] 0 [(GET, HUser [])] [] [].
+Definition cxA_ch : node := Node (named_seg [123;105;100;125;47] [105;100] [47] false) [] 0 [] [] [cxA_g1; cxA_g2].
+Definition cxA_root : node := Node (string_seg []) [] 0 [] [] [cxA_ch].
+
+(* routes "/{id}/{id}/zzz" (rejected by Split: duplicate name) and "{id}/{k}", path "5/7/y" *)
+Lemma cxA_result : match_children 4 cxA_root [53;47;55;47;121] [] = MFound cxA_g2 [([107], [55;47;121])].
+Proof. vm_compute. reflexivity. Qed.
+
+Lemma match_children_sound_false_names :
+  ~ (forall fuel n path ps r ps', match_children fuel n path ps = MFound r ps' ->
+       exists ps0, sub_params ps0 ps /\ walk n path ps0 r ps').
+Proof.
+  intro H. destruct (H _ _ _ _ _ _ cxA_result) as [ps0 [Hs W]].
+  apply sub_params_nil in Hs. subst ps0.
+  apply walk_cons_inv in W. destruct W as [ch [path1 [ps1 [Ich [SM W]]]]].
+  destruct Ich as [<-|[]]. vm_compute in SM. injection SM as <- <-.
+  apply (walk_keeps_keys _ _ _ _ _ W [105;100]); [discriminate | reflexivity].
+Qed.
+
+(* (3) the first-byte index points at a child that writes a parameter (H1 violated): nothing
+   deletes what the indexed child wrote *)
+Definition cxB_ch : node := Node (named_seg [123;105;100;125] [105;100] [] true) [] 0 [] [] [].
+Definition cxB_g2 : node := Node (named_seg [123;107;125] [107] [] true) [] 0 [(GET, HUser [])] [] [].
+Definition cxB_root : node := Node (string_seg []) [] 0 [] [(47, O)] [cxB_ch; cxB_g2].
+Definition cxB_root0 : node := Node (string_seg []) [] 0 [] [(47, O)] [cxB_ch].
+
+Lemma cxB_none : match_children 2 cxB_root0 [120] [] = MNone [([105;100], [120])].
+Proof. vm_compute. reflexivity. Qed.
+Lemma cxB_found : match_children 2 cxB_root [120] [] = MFound cxB_g2 [([105;100], [120]); ([107], [120])].
+Proof. vm_compute. reflexivity. Qed.
+
+Lemma match_children_none_params_false :
+  ~ (forall fuel n path ps ps', match_children fuel n path ps = MNone ps' -> sub_params ps' ps).
+Proof. intro H. specialize (H _ _ _ _ _ cxB_none). apply sub_params_nil in H. discriminate. Qed.
+
+Lemma match_children_sound_false_index :
+  ~ (forall fuel n path ps r ps', match_children fuel n path ps = MFound r ps' ->
+       exists ps0, sub_params ps0 ps /\ walk n path ps0 r ps').
+Proof.
+  intro H. destruct (H _ _ _ _ _ _ cxB_found) as [ps0 [Hs W]].
+  apply sub_params_nil in Hs. subst ps0.
+  apply walk_cons_inv in W. destruct W as [ch [path1 [ps1 [Ich [SM W]]]]].
+  destruct Ich as [<-|[<-|[]]]; vm_compute in SM; injection SM as <- <-;
+    apply walk_nil_inv in W;
+    destruct W as [[Hr [Hp Hz]] | [c2 [p2 [s2 [I2 _]]]]]; try (destruct I2).
+  - vm_compute in Hz. lia.
+  - discriminate.
 Qed.
